@@ -58,6 +58,8 @@ pub struct Eval {
     pub unspecified: bool,
     pub harness_error: Option<String>,
     pub extra_nontrivial: u64,
+    /// the program came from the repository's .dig fixtures
+    pub corpus: bool,
 }
 
 impl Eval {
@@ -76,6 +78,7 @@ impl Eval {
             unspecified: false,
             harness_error: None,
             extra_nontrivial: 0,
+            corpus: false,
         }
     }
 }
@@ -453,9 +456,111 @@ fn knobs_for(prop: Prop, sub: u64, tier: Tier, rng: &mut Rng) -> Knobs {
 // ---------------------------------------------------------------------------------------
 // generation
 
+/// a case built from one of the repository's own .dig fixtures (no model)
+fn corpus_case(prop: Prop, rng: &mut Rng) -> Option<Case> {
+    let corpus = crate::corpus::corpus();
+    if corpus.tests.is_empty() {
+        return None;
+    }
+    let t = &corpus.tests[rng.usize(corpus.tests.len())];
+    let mut layout: Vec<SigSpec> = t.signals.iter().filter(|s| s.is_output()).cloned().collect();
+    match rng.below(4) {
+        0 => {}
+        1 => rng.shuffle(&mut layout),
+        _ => {
+            // the tests read some outputs (Counter.dig reads OUT): a subset that lacks them is
+            // refused by the constructor, which is fine and exercised, but keep most complete
+            rng.shuffle(&mut layout);
+            if rng.chance(1, 3) {
+                let keep = rng.usize(layout.len() + 1);
+                layout.truncate(keep);
+            }
+        }
+    }
+    let zx = rng.chance(1, 4);
+    let layout: Vec<(SigSpec, SigBeh)> = layout
+        .into_iter()
+        .map(|s| {
+            let beh = match rng.below(6) {
+                0 => SigBeh::Tagged,
+                1 => SigBeh::Counter(rng.range(0, 9), rng.range(1, 3)),
+                2 => SigBeh::Const(OutVal::Num(rng.below(2) as i64)),
+                3 => SigBeh::Echo(1 << s.bits.min(8)),
+                _ => SigBeh::Table(TableW {
+                    small: 6,
+                    byte: 1,
+                    fit: 3,
+                    boundary: if zx { 1 } else { 0 },
+                    z: if zx { 1 } else { 0 },
+                    x: if zx { 1 } else { 0 },
+                }),
+            };
+            (s, beh)
+        })
+        .collect();
+    let max_steps = if prop == Prop::C13 { 48 } else { 400 };
+    let mut case = Case {
+        signals: t.signals.clone(),
+        program: Program {
+            header: vec![],
+            stmts: vec![],
+        },
+        duts: vec![crate::dut::DutSpec {
+            layout,
+            seed: rng.next_u64(),
+            overrides_write: rng.chance(1, 2),
+            faults: vec![],
+        }],
+        schedule: vec![Action::Construct(0), Action::Run(0)],
+        entropy: vec![rng.next_u64()],
+        hash_seed: rng.next_u64(),
+        reparse: vec![],
+        run_static: false,
+        inspect: if rng.chance(1, 5) {
+            Some((rng.next_u64(), 1, 3))
+        } else {
+            None
+        },
+        max_steps,
+        continue_after_error: false,
+        source_override: Some(t.source.clone()),
+    };
+    if matches!(prop, Prop::C02 | Prop::C10) && rng.chance(1, 3) {
+        let probe = run_case(&case);
+        let n = probe.iters.first().map(|i| i.calls.len()).unwrap_or(0) as u64;
+        if n > 0 {
+            case.duts[0].faults.push(Fault {
+                at_call: rng.below(n),
+                kind: FaultKind::Error,
+                id: 1000 + rng.below(1_000_000),
+            });
+        }
+    }
+    if prop == Prop::C02 && rng.chance(1, 4) {
+        for _ in 0..(1 + rng.usize(3)) {
+            case.schedule.push(Action::Next(0));
+        }
+    }
+    if prop == Prop::C15 {
+        case.max_steps = 80;
+        c15_shape(&mut case, rng);
+    }
+    Some(case)
+}
+
 pub fn generate(prop: Prop, run_seed: u64, tier: Tier) -> Case {
     let mut rng = Rng::new(run_seed);
     let sub = rng.next_u64() % 60;
+    // a small share of the runs uses the repository's own fixtures as programs
+    if matches!(
+        prop,
+        Prop::C02 | Prop::C03 | Prop::C06 | Prop::C10 | Prop::C13 | Prop::C15
+    ) && rng.below(64) == 0
+    {
+        if let Some(case) = corpus_case(prop, &mut rng) {
+            return case;
+        }
+    }
     let knobs = knobs_for(prop, sub, tier, &mut rng);
     let mut case = gen_case(rng.fork(), &knobs);
     let mut rng = rng.fork();
@@ -709,6 +814,36 @@ fn count_faults(case: &Case, out: &RunOut, f: &mut [u32; N_FAULT_KINDS]) {
     }
 }
 
+/// `count_faults` books every driver error on a non-constructor call that arrived through
+/// the reading method as F2; those that the library sent as a write-only call (forwarded by
+/// the trait's default `write_input`) are F4. `is_write_step(j)` tells whether step j is a
+/// mid-clock row.
+fn split_f2_f4(
+    case: &Case,
+    out: &RunOut,
+    f: &mut [u32; N_FAULT_KINDS],
+    is_write_step: &dyn Fn(usize) -> bool,
+) {
+    let (Some(dut), Some(it)) = (case.duts.first(), out.iters.first()) else {
+        return;
+    };
+    if dut.overrides_write {
+        return;
+    }
+    for flt in &dut.faults {
+        let k = flt.at_call as usize;
+        if flt.kind != FaultKind::Error || k == 0 || k >= it.calls.len() {
+            continue;
+        }
+        if let Some(j) = it.steps.iter().position(|s| s.calls.0 <= k && k < s.calls.1) {
+            if is_write_step(j) && f[2] > 0 {
+                f[2] -= 1;
+                f[4] += 1;
+            }
+        }
+    }
+}
+
 fn rows_yielded(it: &IterHist) -> usize {
     it.steps
         .iter()
@@ -825,10 +960,34 @@ pub fn evaluate(prop: Prop, case: &Case) -> Eval {
     }
     count_faults(case, &out, &mut ev.faults);
     let it = &out.iters[0];
+    if case.source_override.is_some() {
+        // corpus: no model, history-only oracles
+        ev.corpus = true;
+        ev.signature = signature(&out, None);
+        ev.violation = match prop {
+            Prop::C02 => oracle::c02_protocol(case, &out, it, 0),
+            Prop::C03 => oracle::c03_attribution(&out, it),
+            Prop::C06 => oracle::c06_changed(&out, it)
+                .or_else(|| oracle::c06_omitted_never_changed(case, &out, it)),
+            Prop::C10 => oracle::find_panic(&out).map(|pi| Violation {
+                oracle: "C10.panic",
+                detail: pi.show(),
+            }),
+            _ => None,
+        };
+        ev.nontrivial = rows_yielded(it) >= 2;
+        return ev;
+    }
     let r = reference_for(case, &out, 0);
     ev.probes = r.probes;
     ev.signature = signature(&out, Some(&r));
     ev.unspecified = r.unspecified.is_some();
+    split_f2_f4(case, &out, &mut ev.faults, &|j| {
+        matches!(
+            r.steps.get(j).and_then(|s| s.call.as_ref()).map(|c| c.kind),
+            Some(crate::reference::CallKind::W)
+        )
+    });
     let rows = rows_yielded(it);
     let p = |x: Probe| r.probes[x as usize] > 0;
 
@@ -1200,7 +1359,24 @@ fn c13_judge(base_out: &RunOut, faulted: &Case, fault: &Fault, ev: &mut Eval) ->
         ev.harness_error = Some(h);
         return None;
     }
+    let before = ev.faults;
     count_faults(faulted, &out, &mut ev.faults);
+    {
+        // book this run's counts, then move forwarded-write errors from F2 to F4
+        let mut delta = [0u32; N_FAULT_KINDS];
+        for i in 0..N_FAULT_KINDS {
+            delta[i] = ev.faults[i] - before[i];
+        }
+        split_f2_f4(faulted, &out, &mut delta, &|j| {
+            matches!(
+                base_out.iters[0].steps.get(j).map(|s| &s.item),
+                Some(Item::Row(r)) if r.outputs.is_empty()
+            )
+        });
+        for i in 0..N_FAULT_KINDS {
+            ev.faults[i] = before[i] + delta[i];
+        }
+    }
     let it = &out.iters[0];
     let base = &base_out.iters[0];
     let k = fault.at_call as usize;
@@ -1416,6 +1592,7 @@ fn eval_c13(case: &Case) -> Eval {
         return ev;
     }
     ev.signature = signature(&base_out, None);
+    ev.corpus = case.source_override.is_some();
     let base = &base_out.iters[0];
     // the fault-free run itself must not cross-wire
     for (j, s) in base.steps.iter().enumerate() {
@@ -1562,6 +1739,7 @@ fn eval_c15(case: &Case) -> Eval {
     count_faults(case, &out, &mut ev.faults);
     ev.faults[16] += case.entropy.len() as u32;
     ev.signature = signature(&out, None);
+    ev.corpus = case.source_override.is_some();
     let ndecl = case.program.declares().len();
 
     // parse: equal tests, same signal order, under every hash order
@@ -1634,7 +1812,7 @@ fn eval_c15(case: &Case) -> Eval {
             return ev;
         }
         Some(StaticHist::Refused(msg)) => {
-            if reads.is_empty() {
+            if reads.is_empty() && case.source_override.is_none() {
                 ev.violation = Some(Violation {
                     oracle: "C15.static_gate",
                     detail: format!("the program reads no outputs but try_iter_static refused: {msg}"),
@@ -1643,7 +1821,7 @@ fn eval_c15(case: &Case) -> Eval {
             }
         }
         Some(StaticHist::Ran(items)) => {
-            if !reads.is_empty() {
+            if !reads.is_empty() && case.source_override.is_none() {
                 ev.violation = Some(Violation {
                     oracle: "C15.static_gate",
                     detail: format!(
